@@ -509,7 +509,8 @@ func (this *Dataset) searchPartitionsOnNode(ctx context.Context, nodeId uint64, 
 		return
 	}
 
-	result := make(index.SearchResult, 0, k)
+	// k comes from the request: the result grows with what the node actually sends
+	result := make(index.SearchResult, 0)
 	for {
 		item, err := stream.Recv()
 		if err == io.EOF {
